@@ -3,6 +3,7 @@
   recipients.  Statements only; proofs in Saltpack/Proofs/RoundTripSig.lean.
 -/
 import Saltpack.Proofs.RoundTripSig
+import Saltpack.Proofs.WireRT
 import Saltpack.Toy
 
 namespace Saltpack.Props.C03
@@ -64,6 +65,45 @@ theorem C03_forms_agree (P : Prims) (kr : Keyring) (res : Signcrypt.Resolver) (h
   generalize Signcrypt.openStream P kr res hr ps = r
   obtain ⟨sg, rel, err, calls⟩ := r
   cases err <;> simp
+
+/-- **Round trips on the emitted BYTES** (the message `SigncryptSeal` emits,
+    split as a receiver's MessagePack stream splits it) — box-key recipients … -/
+theorem C03_roundtrip_box_bytes (P : Prims) (hP : P.Lawful) (bs : Nat) (hbs : 0 < bs) (hbs32 : bs + 80 < 2 ^ 32)
+    (sender : Option Bytes) (rs : List Signcrypt.Recipient) (eph payloadKey pt : Bytes)
+    (hpk : payloadKey.length = 32)
+    (hsender : ∀ s, sender = some s → ¬ ((P.sigPub s).all (· == 0)))
+    (hblocks : (Encrypt.chunkPlan v2 bs pt).length < 2 ^ 64 - 1)
+    (i : Nat) (hi : i < rs.length) (sk : Bytes) (hsk : rs.getD i default = .box (P.boxPub sk))
+    (hnc : ∀ j, j < i → Signcrypt.keyIdentifier P (Signcrypt.derivedKeyFromBoxKeys P (P.boxPub eph) sk) j ≠
+        Decrypt.kidOf ((Signcrypt.header P sender eph payloadKey rs).receivers.getD j default))
+    (L : Nat) (hL32 : 32 ≤ L)
+    (hid : ∀ key ident, Signcrypt.Recipient.sym key ident ∈ rs → ident.length ≤ L)
+    (hsmall : 145 + rs.length * (L + 63) < 2 ^ 32)
+    (msg : Bytes) (hmsg : Signcrypt.sealWith P bs sender rs eph payloadKey pt = .ok msg) :
+    ∃ hr ps, Wire.splitSigncrypt msg = .ok (hr, ps) ∧
+      Signcrypt.openAll P (Proofs.faithfulKeyring P [sk]) none hr ps = .ok (sender.map P.sigPub, pt) :=
+  Proofs.sc_roundtrip_box_bytes P hP bs hbs hbs32 sender rs eph payloadKey pt hpk hsender hblocks i hi sk hsk hnc
+    L hL32 hid hsmall msg hmsg
+
+/-- … and symmetric-key recipients -/
+theorem C03_roundtrip_sym_bytes (P : Prims) (hP : P.Lawful) (bs : Nat) (hbs : 0 < bs) (hbs32 : bs + 80 < 2 ^ 32)
+    (sender : Option Bytes) (rs : List Signcrypt.Recipient) (eph payloadKey pt : Bytes)
+    (hpk : payloadKey.length = 32)
+    (hsender : ∀ s, sender = some s → ¬ ((P.sigPub s).all (· == 0)))
+    (hblocks : (Encrypt.chunkPlan v2 bs pt).length < 2 ^ 64 - 1)
+    (f : List Bytes → Except Err (List (Option Bytes))) (keys : List (Option Bytes))
+    (hf : f ((Signcrypt.header P sender eph payloadKey rs).receivers.map Decrypt.kidOf) = .ok keys)
+    (hlen : keys.length = rs.length)
+    (htrue : ∀ (j : Nat) (k : Bytes), keys[j]? = some (some k) → ∃ ident, rs[j]? = some (Signcrypt.Recipient.sym k ident))
+    (hsome : ∃ (j : Nat) (k : Bytes), keys[j]? = some (some k))
+    (L : Nat) (hL32 : 32 ≤ L)
+    (hid : ∀ key ident, Signcrypt.Recipient.sym key ident ∈ rs → ident.length ≤ L)
+    (hsmall : 145 + rs.length * (L + 63) < 2 ^ 32)
+    (msg : Bytes) (hmsg : Signcrypt.sealWith P bs sender rs eph payloadKey pt = .ok msg) :
+    ∃ hr ps, Wire.splitSigncrypt msg = .ok (hr, ps) ∧
+      Signcrypt.openAll P (Proofs.faithfulKeyring P []) (some f) hr ps = .ok (sender.map P.sigPub, pt) :=
+  Proofs.sc_roundtrip_sym_bytes P hP bs hbs hbs32 sender rs eph payloadKey pt hpk hsender hblocks f keys hf hlen htrue hsome
+    L hL32 hid hsmall msg hmsg
 
 /-! ## non-vacuity -/
 example : Toy.prims.Lawful := Toy.lawful
